@@ -150,7 +150,8 @@ package zap
 //@   track FF = call (*internal/stacktrace.Formatter).FormatFrame
 //@   track WR = invoke zapcore.Core.Write
 //@   track AS = invoke zapcore.LevelEnabler.Enabled
-//@   modifies $user, zapcore.CheckedEntry.cores, zapcore.CheckedEntry.after, zapcore.CheckedEntry.ErrorOutput, zapcore.CheckedEntry.Entry, comp(E:zapcore.Core), comp(E:uint8), comp(E:uintptr), buffer.Buffer.bs, stacktrace.Formatter.nonEmpty
+//@   modifies $user, comp(E:zapcore.Core), comp(E:uint8), comp(E:uintptr), buffer.Buffer.bs, stacktrace.Formatter.nonEmpty
+//@   ensures elems_frame(type(zapcore.Core), zero(type([]zapcore.Core)))
 //@   ensures #WR == 0
 //@   ensures lvl < zapcore.DPanicLevel && !enabled(old(log.core), lvl) ==> result == nil && #NOW == 0 && #CK == 0 && #CAP == 0
 //@   ensures !(lvl < zapcore.DPanicLevel && !enabled(old(log.core), lvl)) ==> #NOW == 1 && #CK == 1 && CK.recv[0] == old(log.core) && CK.arg1[0] == nil && CK.arg0[0].Level == lvl && CK.arg0[0].Message == msg && CK.arg0[0].LoggerName == old(log.name) && CK.arg0[0].Time == NOW.ret0[0]
@@ -159,7 +160,7 @@ package zap
 //@   ensures lvl == zapcore.DPanicLevel && old(log.development) ==> result != nil && result.after == overrideHook(iface(type(zapcore.CheckWriteAction), zapcore.WriteThenPanic), old(log.onPanic))
 //@   ensures #CK == 1 && CK.ret0[0] == nil && !(lvl == zapcore.PanicLevel || lvl == zapcore.FatalLevel || (lvl == zapcore.DPanicLevel && old(log.development))) ==> result == nil
 //@   ensures #CK == 1 && CK.ret0[0] != nil ==> result == CK.ret0[0] && result.ErrorOutput == old(log.errorOutput)
-//@   ensures result != nil ==> !result.dirty
+//@   ensures result != nil ==> !result.dirty && fresh(result)
 //@   ensures result != nil ==> (forall i int :: 0 <= i && i < len(result.cores) ==> result.cores[i] != nil)
 //@   ensures result != nil && CK.ret0[0] == nil ==> len(result.cores) == 0
 //@   ensures result != nil && CK.ret0[0] != nil ==> (forall i int :: 0 <= i && i < len(result.cores) ==> result.cores[i] != nil)
@@ -173,11 +174,17 @@ package zap
 //@ func (*zap.Logger).Check
 //@   props C05 C06 C15
 //@   flags nopanic
-//@   modifies $user, zapcore.CheckedEntry.cores, zapcore.CheckedEntry.after, zapcore.CheckedEntry.ErrorOutput, zapcore.CheckedEntry.Entry, zapcore.CheckedEntry.dirty, comp(E:zapcore.Core), comp(E:uint8), comp(E:uintptr), buffer.Buffer.bs, stacktrace.Formatter.nonEmpty
+//@   modifies $user, comp(E:zapcore.Core), comp(E:uint8), comp(E:uintptr), buffer.Buffer.bs, stacktrace.Formatter.nonEmpty
+//@   ensures elems_frame(type(zapcore.Core), zero(type([]zapcore.Core)))
 //@   requires log != nil && log.core != nil && log.clock != nil && log.addStack != nil && log.errorOutput != nil
 //@   requires 0 <= log.callerSkip && log.callerSkip <= 1 << 20
 //@   track C = call (*zap.Logger).check
 //@   ensures #C == 1 && C.recv[0] == log && C.arg0[0] == lvl && C.arg1[0] == msg && result == C.ret0[0]
+//@   ensures result != nil ==> !result.dirty && fresh(result)
+//@   ensures result != nil ==> (forall i int :: 0 <= i && i < len(result.cores) ==> result.cores[i] != nil)
+//@   ensures lvl == zapcore.PanicLevel ==> result != nil && result.after == overrideHook(iface(type(zapcore.CheckWriteAction), zapcore.WriteThenPanic), old(log.onPanic))
+//@   ensures lvl == zapcore.FatalLevel ==> result != nil && result.after == overrideHook(iface(type(zapcore.CheckWriteAction), zapcore.WriteThenFatal), old(log.onFatal))
+//@   ensures lvl == zapcore.DPanicLevel && old(log.development) ==> result != nil && result.after == overrideHook(iface(type(zapcore.CheckWriteAction), zapcore.WriteThenPanic), old(log.onPanic))
 
 //@ func (*zap.Logger).Level
 //@   props C05
@@ -195,7 +202,8 @@ package zap
 //@ func (*zap.Logger).Debug
 //@   props C06 C15 C05
 //@   flags nopanic propagates-panics
-//@   modifies $user, zapcore.CheckedEntry.cores, zapcore.CheckedEntry.after, zapcore.CheckedEntry.ErrorOutput, zapcore.CheckedEntry.Entry, zapcore.CheckedEntry.dirty, comp(E:zapcore.Core), comp(E:uint8), comp(E:uintptr), buffer.Buffer.bs, stacktrace.Formatter.nonEmpty
+//@   modifies $user, comp(E:zapcore.Core), comp(E:uint8), comp(E:uintptr), buffer.Buffer.bs, stacktrace.Formatter.nonEmpty
+//@   ensures elems_frame(type(zapcore.Core), zero(type([]zapcore.Core)))
 //@   requires log != nil && log.core != nil && log.clock != nil && log.addStack != nil && log.errorOutput != nil
 //@   requires 0 <= log.callerSkip && log.callerSkip <= 1 << 20
 //@   track C = call (*zap.Logger).check
@@ -207,7 +215,8 @@ package zap
 //@ func (*zap.Logger).Info
 //@   props C06 C15 C05
 //@   flags nopanic propagates-panics
-//@   modifies $user, zapcore.CheckedEntry.cores, zapcore.CheckedEntry.after, zapcore.CheckedEntry.ErrorOutput, zapcore.CheckedEntry.Entry, zapcore.CheckedEntry.dirty, comp(E:zapcore.Core), comp(E:uint8), comp(E:uintptr), buffer.Buffer.bs, stacktrace.Formatter.nonEmpty
+//@   modifies $user, comp(E:zapcore.Core), comp(E:uint8), comp(E:uintptr), buffer.Buffer.bs, stacktrace.Formatter.nonEmpty
+//@   ensures elems_frame(type(zapcore.Core), zero(type([]zapcore.Core)))
 //@   requires log != nil && log.core != nil && log.clock != nil && log.addStack != nil && log.errorOutput != nil
 //@   requires 0 <= log.callerSkip && log.callerSkip <= 1 << 20
 //@   track C = call (*zap.Logger).check
@@ -219,7 +228,8 @@ package zap
 //@ func (*zap.Logger).Warn
 //@   props C06 C15 C05
 //@   flags nopanic propagates-panics
-//@   modifies $user, zapcore.CheckedEntry.cores, zapcore.CheckedEntry.after, zapcore.CheckedEntry.ErrorOutput, zapcore.CheckedEntry.Entry, zapcore.CheckedEntry.dirty, comp(E:zapcore.Core), comp(E:uint8), comp(E:uintptr), buffer.Buffer.bs, stacktrace.Formatter.nonEmpty
+//@   modifies $user, comp(E:zapcore.Core), comp(E:uint8), comp(E:uintptr), buffer.Buffer.bs, stacktrace.Formatter.nonEmpty
+//@   ensures elems_frame(type(zapcore.Core), zero(type([]zapcore.Core)))
 //@   requires log != nil && log.core != nil && log.clock != nil && log.addStack != nil && log.errorOutput != nil
 //@   requires 0 <= log.callerSkip && log.callerSkip <= 1 << 20
 //@   track C = call (*zap.Logger).check
@@ -231,7 +241,8 @@ package zap
 //@ func (*zap.Logger).Error
 //@   props C06 C15 C05
 //@   flags nopanic propagates-panics
-//@   modifies $user, zapcore.CheckedEntry.cores, zapcore.CheckedEntry.after, zapcore.CheckedEntry.ErrorOutput, zapcore.CheckedEntry.Entry, zapcore.CheckedEntry.dirty, comp(E:zapcore.Core), comp(E:uint8), comp(E:uintptr), buffer.Buffer.bs, stacktrace.Formatter.nonEmpty
+//@   modifies $user, comp(E:zapcore.Core), comp(E:uint8), comp(E:uintptr), buffer.Buffer.bs, stacktrace.Formatter.nonEmpty
+//@   ensures elems_frame(type(zapcore.Core), zero(type([]zapcore.Core)))
 //@   requires log != nil && log.core != nil && log.clock != nil && log.addStack != nil && log.errorOutput != nil
 //@   requires 0 <= log.callerSkip && log.callerSkip <= 1 << 20
 //@   track C = call (*zap.Logger).check
@@ -243,7 +254,8 @@ package zap
 //@ func (*zap.Logger).DPanic
 //@   props C06 C15 C05
 //@   flags nopanic propagates-panics
-//@   modifies $user, zapcore.CheckedEntry.cores, zapcore.CheckedEntry.after, zapcore.CheckedEntry.ErrorOutput, zapcore.CheckedEntry.Entry, zapcore.CheckedEntry.dirty, comp(E:zapcore.Core), comp(E:uint8), comp(E:uintptr), buffer.Buffer.bs, stacktrace.Formatter.nonEmpty
+//@   modifies $user, comp(E:zapcore.Core), comp(E:uint8), comp(E:uintptr), buffer.Buffer.bs, stacktrace.Formatter.nonEmpty
+//@   ensures elems_frame(type(zapcore.Core), zero(type([]zapcore.Core)))
 //@   requires log != nil && log.core != nil && log.clock != nil && log.addStack != nil && log.errorOutput != nil
 //@   requires 0 <= log.callerSkip && log.callerSkip <= 1 << 20
 //@   track C = call (*zap.Logger).check
@@ -257,7 +269,8 @@ package zap
 //@ func (*zap.Logger).Panic
 //@   props C06 C15 C05
 //@   flags nopanic propagates-panics
-//@   modifies $user, zapcore.CheckedEntry.cores, zapcore.CheckedEntry.after, zapcore.CheckedEntry.ErrorOutput, zapcore.CheckedEntry.Entry, zapcore.CheckedEntry.dirty, comp(E:zapcore.Core), comp(E:uint8), comp(E:uintptr), buffer.Buffer.bs, stacktrace.Formatter.nonEmpty
+//@   modifies $user, comp(E:zapcore.Core), comp(E:uint8), comp(E:uintptr), buffer.Buffer.bs, stacktrace.Formatter.nonEmpty
+//@   ensures elems_frame(type(zapcore.Core), zero(type([]zapcore.Core)))
 //@   requires log != nil && log.core != nil && log.clock != nil && log.addStack != nil && log.errorOutput != nil
 //@   requires 0 <= log.callerSkip && log.callerSkip <= 1 << 20
 //@   track C = call (*zap.Logger).check
@@ -271,7 +284,8 @@ package zap
 //@ func (*zap.Logger).Fatal
 //@   props C06 C15 C05
 //@   flags nopanic propagates-panics
-//@   modifies $user, zapcore.CheckedEntry.cores, zapcore.CheckedEntry.after, zapcore.CheckedEntry.ErrorOutput, zapcore.CheckedEntry.Entry, zapcore.CheckedEntry.dirty, comp(E:zapcore.Core), comp(E:uint8), comp(E:uintptr), buffer.Buffer.bs, stacktrace.Formatter.nonEmpty
+//@   modifies $user, comp(E:zapcore.Core), comp(E:uint8), comp(E:uintptr), buffer.Buffer.bs, stacktrace.Formatter.nonEmpty
+//@   ensures elems_frame(type(zapcore.Core), zero(type([]zapcore.Core)))
 //@   requires log != nil && log.core != nil && log.clock != nil && log.addStack != nil && log.errorOutput != nil
 //@   requires 0 <= log.callerSkip && log.callerSkip <= 1 << 20
 //@   track C = call (*zap.Logger).check
@@ -285,7 +299,8 @@ package zap
 //@ func (*zap.Logger).Log
 //@   props C06 C15 C05
 //@   flags nopanic propagates-panics
-//@   modifies $user, zapcore.CheckedEntry.cores, zapcore.CheckedEntry.after, zapcore.CheckedEntry.ErrorOutput, zapcore.CheckedEntry.Entry, zapcore.CheckedEntry.dirty, comp(E:zapcore.Core), comp(E:uint8), comp(E:uintptr), buffer.Buffer.bs, stacktrace.Formatter.nonEmpty
+//@   modifies $user, comp(E:zapcore.Core), comp(E:uint8), comp(E:uintptr), buffer.Buffer.bs, stacktrace.Formatter.nonEmpty
+//@   ensures elems_frame(type(zapcore.Core), zero(type([]zapcore.Core)))
 //@   requires log != nil && log.core != nil && log.clock != nil && log.addStack != nil && log.errorOutput != nil
 //@   requires 0 <= log.callerSkip && log.callerSkip <= 1 << 20
 //@   track C = call (*zap.Logger).check
@@ -307,6 +322,8 @@ package zap
 //@   flags nopanic propagates-panics
 //@   requires s != nil && s.base != nil && s.base.core != nil && s.base.clock != nil && s.base.addStack != nil && s.base.errorOutput != nil
 //@   requires 0 <= s.base.callerSkip && s.base.callerSkip <= 1 << 20
+//@   modifies $user, comp(E:zapcore.Core), comp(E:uint8), comp(E:uintptr), buffer.Buffer.bs, stacktrace.Formatter.nonEmpty, fields(zapcore.Field), fields(zap.invalidPair)
+//@   ensures elems_frame(type(zapcore.Core), zero(type([]zapcore.Core)))
 //@   track DIAG = call (*zap.Logger).Error
 //@   track ANY = call zap.Any
 //@   track ARR = call zap.Array
@@ -316,6 +333,7 @@ package zap
 //@   loop 1 invariant 0 <= i && i <= len(args) && len(args) > 0 && s.base == old(s.base) && #ARR == 0
 //@   loop 1 invariant s.base.core != nil && s.base.clock != nil && s.base.addStack != nil && s.base.errorOutput != nil && s.base.callerSkip == old(s.base.callerSkip)
 //@   loop 1 invariant #DIAG >= 0 && #ANY >= 0
+//@   loop 1 invariant elems_frame(type(zapcore.Core), zero(type([]zapcore.Core)))
 //@   loop 1 invariant i == len(fields) + #DIAG + #ANY + 2 * len(invalid)
 //@   loop 1 invariant seenError ==> len(fields) >= 1
 
@@ -324,3 +342,384 @@ package zap
 //@   props C03
 //@   flags nopanic trusted
 //@   modifies nothing
+
+//@ func (*zap.Logger).Core
+//@   props C05
+//@   flags nopanic
+//@   requires log != nil
+//@   modifies nothing
+//@   ensures result == log.core
+
+// Messages (C14): template verbatim without arguments, Sprintf with a template, the single
+// string argument as is, Sprint otherwise; Sprintln without its final newline.
+//@ func zap.getMessage
+//@   props C14
+//@   flags nopanic
+//@   modifies nothing
+//@   ensures len(fmtArgs) == 0 ==> result == template
+//@   ensures len(fmtArgs) > 0 && template != "" ==> result == sprintf(template, fmtArgs)
+//@   ensures len(fmtArgs) == 1 && template == "" && typeof(fmtArgs[0]) == type(string) ==> result == as(fmtArgs[0], type(string))
+//@   ensures len(fmtArgs) > 0 && template == "" && !(len(fmtArgs) == 1 && typeof(fmtArgs[0]) == type(string)) ==> result == sprint(fmtArgs)
+
+//@ func zap.getMessageln
+//@   props C14
+//@   flags nopanic
+//@   modifies nothing
+//@   ensures result == sub(sprintln(fmtArgs), 0, len(sprintln(fmtArgs)) - 1)
+
+
+// Pre-check (C05): below DPanic a disabled level does nothing at all (no message formatting, no
+// Check, no argument sweep). From DPanic upward the check is bypassed (C06).
+//@ func (*zap.SugaredLogger).log
+//@   props C05 C06 C14 C15
+//@   flags nopanic propagates-panics
+//@   requires s != nil && s.base != nil && s.base.core != nil && s.base.clock != nil && s.base.addStack != nil && s.base.errorOutput != nil
+//@   requires 0 <= s.base.callerSkip && s.base.callerSkip <= 1 << 20
+//@   modifies $user, comp(E:zapcore.Core), comp(E:uint8), comp(E:uintptr), buffer.Buffer.bs, stacktrace.Formatter.nonEmpty, fields(zapcore.Field), fields(zap.invalidPair)
+//@   ensures elems_frame(type(zapcore.Core), zero(type([]zapcore.Core)))
+//@   track GM = call zap.getMessage
+//@   track CK = call (*zap.Logger).Check
+//@   track SW = call (*zap.SugaredLogger).sweetenFields
+//@   track W = call (*zapcore.CheckedEntry).Write
+//@   ensures lvl < zapcore.DPanicLevel && !enabled(old(s.base.core), lvl) ==> #GM == 0 && #CK == 0 && #SW == 0 && #W == 0
+//@   ensures !(lvl < zapcore.DPanicLevel && !enabled(old(s.base.core), lvl)) ==> #GM == 1 && #CK == 1 && CK.recv[0] == old(s.base) && CK.arg0[0] == lvl && CK.arg1[0] == GM.ret0[0]
+//@   ensures #CK == 1 && CK.ret0[0] != nil ==> #SW == 1 && SW.arg0[0] == context && #W == 1 && W.recv[0] == CK.ret0[0] && W.arg0[0] == SW.ret0[0]
+//@   ensures #CK == 1 && CK.ret0[0] == nil ==> #SW == 0 && #W == 0
+
+// Pre-check (C05): below DPanic a disabled level does nothing at all (no message formatting, no
+// Check, no argument sweep). From DPanic upward the check is bypassed (C06).
+//@ func (*zap.SugaredLogger).logln
+//@   props C05 C06 C14 C15
+//@   flags nopanic propagates-panics
+//@   requires s != nil && s.base != nil && s.base.core != nil && s.base.clock != nil && s.base.addStack != nil && s.base.errorOutput != nil
+//@   requires 0 <= s.base.callerSkip && s.base.callerSkip <= 1 << 20
+//@   modifies $user, comp(E:zapcore.Core), comp(E:uint8), comp(E:uintptr), buffer.Buffer.bs, stacktrace.Formatter.nonEmpty, fields(zapcore.Field), fields(zap.invalidPair)
+//@   ensures elems_frame(type(zapcore.Core), zero(type([]zapcore.Core)))
+//@   track GM = call zap.getMessageln
+//@   track CK = call (*zap.Logger).Check
+//@   track SW = call (*zap.SugaredLogger).sweetenFields
+//@   track W = call (*zapcore.CheckedEntry).Write
+//@   ensures lvl < zapcore.DPanicLevel && !enabled(old(s.base.core), lvl) ==> #GM == 0 && #CK == 0 && #SW == 0 && #W == 0
+//@   ensures !(lvl < zapcore.DPanicLevel && !enabled(old(s.base.core), lvl)) ==> #GM == 1 && #CK == 1 && CK.recv[0] == old(s.base) && CK.arg0[0] == lvl && CK.arg1[0] == GM.ret0[0]
+//@   ensures #CK == 1 && CK.ret0[0] != nil ==> #SW == 1 && SW.arg0[0] == context && #W == 1 && W.recv[0] == CK.ret0[0] && W.arg0[0] == SW.ret0[0]
+//@   ensures #CK == 1 && CK.ret0[0] == nil ==> #SW == 0 && #W == 0
+
+//@ func (*zap.SugaredLogger).Debug
+//@   props C06 C15 C14
+//@   flags nopanic propagates-panics
+//@   requires s != nil && s.base != nil && s.base.core != nil && s.base.clock != nil && s.base.addStack != nil && s.base.errorOutput != nil
+//@   requires 0 <= s.base.callerSkip && s.base.callerSkip <= 1 << 20
+//@   modifies $user, comp(E:zapcore.Core), comp(E:uint8), comp(E:uintptr), buffer.Buffer.bs, stacktrace.Formatter.nonEmpty, fields(zapcore.Field), fields(zap.invalidPair)
+//@   ensures elems_frame(type(zapcore.Core), zero(type([]zapcore.Core)))
+//@   track L = call (*zap.SugaredLogger).log
+//@   ensures #L == 1 && L.recv[0] == s && L.arg0[0] == zapcore.DebugLevel && L.arg1[0] == "" && L.arg2[0] == args && len(L.arg3[0]) == 0
+
+//@ func (*zap.SugaredLogger).Debugf
+//@   props C06 C15 C14
+//@   flags nopanic propagates-panics
+//@   requires s != nil && s.base != nil && s.base.core != nil && s.base.clock != nil && s.base.addStack != nil && s.base.errorOutput != nil
+//@   requires 0 <= s.base.callerSkip && s.base.callerSkip <= 1 << 20
+//@   modifies $user, comp(E:zapcore.Core), comp(E:uint8), comp(E:uintptr), buffer.Buffer.bs, stacktrace.Formatter.nonEmpty, fields(zapcore.Field), fields(zap.invalidPair)
+//@   ensures elems_frame(type(zapcore.Core), zero(type([]zapcore.Core)))
+//@   track L = call (*zap.SugaredLogger).log
+//@   ensures #L == 1 && L.recv[0] == s && L.arg0[0] == zapcore.DebugLevel && L.arg1[0] == template && L.arg2[0] == args && len(L.arg3[0]) == 0
+
+//@ func (*zap.SugaredLogger).Debugw
+//@   props C06 C15 C14
+//@   flags nopanic propagates-panics
+//@   requires s != nil && s.base != nil && s.base.core != nil && s.base.clock != nil && s.base.addStack != nil && s.base.errorOutput != nil
+//@   requires 0 <= s.base.callerSkip && s.base.callerSkip <= 1 << 20
+//@   modifies $user, comp(E:zapcore.Core), comp(E:uint8), comp(E:uintptr), buffer.Buffer.bs, stacktrace.Formatter.nonEmpty, fields(zapcore.Field), fields(zap.invalidPair)
+//@   ensures elems_frame(type(zapcore.Core), zero(type([]zapcore.Core)))
+//@   track L = call (*zap.SugaredLogger).log
+//@   ensures #L == 1 && L.recv[0] == s && L.arg0[0] == zapcore.DebugLevel && L.arg1[0] == msg && len(L.arg2[0]) == 0 && L.arg3[0] == keysAndValues
+
+//@ func (*zap.SugaredLogger).Debugln
+//@   props C06 C15 C14
+//@   flags nopanic propagates-panics
+//@   requires s != nil && s.base != nil && s.base.core != nil && s.base.clock != nil && s.base.addStack != nil && s.base.errorOutput != nil
+//@   requires 0 <= s.base.callerSkip && s.base.callerSkip <= 1 << 20
+//@   modifies $user, comp(E:zapcore.Core), comp(E:uint8), comp(E:uintptr), buffer.Buffer.bs, stacktrace.Formatter.nonEmpty, fields(zapcore.Field), fields(zap.invalidPair)
+//@   ensures elems_frame(type(zapcore.Core), zero(type([]zapcore.Core)))
+//@   track L = call (*zap.SugaredLogger).logln
+//@   ensures #L == 1 && L.recv[0] == s && L.arg0[0] == zapcore.DebugLevel && L.arg1[0] == args && len(L.arg2[0]) == 0
+
+//@ func (*zap.SugaredLogger).Info
+//@   props C06 C15 C14
+//@   flags nopanic propagates-panics
+//@   requires s != nil && s.base != nil && s.base.core != nil && s.base.clock != nil && s.base.addStack != nil && s.base.errorOutput != nil
+//@   requires 0 <= s.base.callerSkip && s.base.callerSkip <= 1 << 20
+//@   modifies $user, comp(E:zapcore.Core), comp(E:uint8), comp(E:uintptr), buffer.Buffer.bs, stacktrace.Formatter.nonEmpty, fields(zapcore.Field), fields(zap.invalidPair)
+//@   ensures elems_frame(type(zapcore.Core), zero(type([]zapcore.Core)))
+//@   track L = call (*zap.SugaredLogger).log
+//@   ensures #L == 1 && L.recv[0] == s && L.arg0[0] == zapcore.InfoLevel && L.arg1[0] == "" && L.arg2[0] == args && len(L.arg3[0]) == 0
+
+//@ func (*zap.SugaredLogger).Infof
+//@   props C06 C15 C14
+//@   flags nopanic propagates-panics
+//@   requires s != nil && s.base != nil && s.base.core != nil && s.base.clock != nil && s.base.addStack != nil && s.base.errorOutput != nil
+//@   requires 0 <= s.base.callerSkip && s.base.callerSkip <= 1 << 20
+//@   modifies $user, comp(E:zapcore.Core), comp(E:uint8), comp(E:uintptr), buffer.Buffer.bs, stacktrace.Formatter.nonEmpty, fields(zapcore.Field), fields(zap.invalidPair)
+//@   ensures elems_frame(type(zapcore.Core), zero(type([]zapcore.Core)))
+//@   track L = call (*zap.SugaredLogger).log
+//@   ensures #L == 1 && L.recv[0] == s && L.arg0[0] == zapcore.InfoLevel && L.arg1[0] == template && L.arg2[0] == args && len(L.arg3[0]) == 0
+
+//@ func (*zap.SugaredLogger).Infow
+//@   props C06 C15 C14
+//@   flags nopanic propagates-panics
+//@   requires s != nil && s.base != nil && s.base.core != nil && s.base.clock != nil && s.base.addStack != nil && s.base.errorOutput != nil
+//@   requires 0 <= s.base.callerSkip && s.base.callerSkip <= 1 << 20
+//@   modifies $user, comp(E:zapcore.Core), comp(E:uint8), comp(E:uintptr), buffer.Buffer.bs, stacktrace.Formatter.nonEmpty, fields(zapcore.Field), fields(zap.invalidPair)
+//@   ensures elems_frame(type(zapcore.Core), zero(type([]zapcore.Core)))
+//@   track L = call (*zap.SugaredLogger).log
+//@   ensures #L == 1 && L.recv[0] == s && L.arg0[0] == zapcore.InfoLevel && L.arg1[0] == msg && len(L.arg2[0]) == 0 && L.arg3[0] == keysAndValues
+
+//@ func (*zap.SugaredLogger).Infoln
+//@   props C06 C15 C14
+//@   flags nopanic propagates-panics
+//@   requires s != nil && s.base != nil && s.base.core != nil && s.base.clock != nil && s.base.addStack != nil && s.base.errorOutput != nil
+//@   requires 0 <= s.base.callerSkip && s.base.callerSkip <= 1 << 20
+//@   modifies $user, comp(E:zapcore.Core), comp(E:uint8), comp(E:uintptr), buffer.Buffer.bs, stacktrace.Formatter.nonEmpty, fields(zapcore.Field), fields(zap.invalidPair)
+//@   ensures elems_frame(type(zapcore.Core), zero(type([]zapcore.Core)))
+//@   track L = call (*zap.SugaredLogger).logln
+//@   ensures #L == 1 && L.recv[0] == s && L.arg0[0] == zapcore.InfoLevel && L.arg1[0] == args && len(L.arg2[0]) == 0
+
+//@ func (*zap.SugaredLogger).Warn
+//@   props C06 C15 C14
+//@   flags nopanic propagates-panics
+//@   requires s != nil && s.base != nil && s.base.core != nil && s.base.clock != nil && s.base.addStack != nil && s.base.errorOutput != nil
+//@   requires 0 <= s.base.callerSkip && s.base.callerSkip <= 1 << 20
+//@   modifies $user, comp(E:zapcore.Core), comp(E:uint8), comp(E:uintptr), buffer.Buffer.bs, stacktrace.Formatter.nonEmpty, fields(zapcore.Field), fields(zap.invalidPair)
+//@   ensures elems_frame(type(zapcore.Core), zero(type([]zapcore.Core)))
+//@   track L = call (*zap.SugaredLogger).log
+//@   ensures #L == 1 && L.recv[0] == s && L.arg0[0] == zapcore.WarnLevel && L.arg1[0] == "" && L.arg2[0] == args && len(L.arg3[0]) == 0
+
+//@ func (*zap.SugaredLogger).Warnf
+//@   props C06 C15 C14
+//@   flags nopanic propagates-panics
+//@   requires s != nil && s.base != nil && s.base.core != nil && s.base.clock != nil && s.base.addStack != nil && s.base.errorOutput != nil
+//@   requires 0 <= s.base.callerSkip && s.base.callerSkip <= 1 << 20
+//@   modifies $user, comp(E:zapcore.Core), comp(E:uint8), comp(E:uintptr), buffer.Buffer.bs, stacktrace.Formatter.nonEmpty, fields(zapcore.Field), fields(zap.invalidPair)
+//@   ensures elems_frame(type(zapcore.Core), zero(type([]zapcore.Core)))
+//@   track L = call (*zap.SugaredLogger).log
+//@   ensures #L == 1 && L.recv[0] == s && L.arg0[0] == zapcore.WarnLevel && L.arg1[0] == template && L.arg2[0] == args && len(L.arg3[0]) == 0
+
+//@ func (*zap.SugaredLogger).Warnw
+//@   props C06 C15 C14
+//@   flags nopanic propagates-panics
+//@   requires s != nil && s.base != nil && s.base.core != nil && s.base.clock != nil && s.base.addStack != nil && s.base.errorOutput != nil
+//@   requires 0 <= s.base.callerSkip && s.base.callerSkip <= 1 << 20
+//@   modifies $user, comp(E:zapcore.Core), comp(E:uint8), comp(E:uintptr), buffer.Buffer.bs, stacktrace.Formatter.nonEmpty, fields(zapcore.Field), fields(zap.invalidPair)
+//@   ensures elems_frame(type(zapcore.Core), zero(type([]zapcore.Core)))
+//@   track L = call (*zap.SugaredLogger).log
+//@   ensures #L == 1 && L.recv[0] == s && L.arg0[0] == zapcore.WarnLevel && L.arg1[0] == msg && len(L.arg2[0]) == 0 && L.arg3[0] == keysAndValues
+
+//@ func (*zap.SugaredLogger).Warnln
+//@   props C06 C15 C14
+//@   flags nopanic propagates-panics
+//@   requires s != nil && s.base != nil && s.base.core != nil && s.base.clock != nil && s.base.addStack != nil && s.base.errorOutput != nil
+//@   requires 0 <= s.base.callerSkip && s.base.callerSkip <= 1 << 20
+//@   modifies $user, comp(E:zapcore.Core), comp(E:uint8), comp(E:uintptr), buffer.Buffer.bs, stacktrace.Formatter.nonEmpty, fields(zapcore.Field), fields(zap.invalidPair)
+//@   ensures elems_frame(type(zapcore.Core), zero(type([]zapcore.Core)))
+//@   track L = call (*zap.SugaredLogger).logln
+//@   ensures #L == 1 && L.recv[0] == s && L.arg0[0] == zapcore.WarnLevel && L.arg1[0] == args && len(L.arg2[0]) == 0
+
+//@ func (*zap.SugaredLogger).Error
+//@   props C06 C15 C14
+//@   flags nopanic propagates-panics
+//@   requires s != nil && s.base != nil && s.base.core != nil && s.base.clock != nil && s.base.addStack != nil && s.base.errorOutput != nil
+//@   requires 0 <= s.base.callerSkip && s.base.callerSkip <= 1 << 20
+//@   modifies $user, comp(E:zapcore.Core), comp(E:uint8), comp(E:uintptr), buffer.Buffer.bs, stacktrace.Formatter.nonEmpty, fields(zapcore.Field), fields(zap.invalidPair)
+//@   ensures elems_frame(type(zapcore.Core), zero(type([]zapcore.Core)))
+//@   track L = call (*zap.SugaredLogger).log
+//@   ensures #L == 1 && L.recv[0] == s && L.arg0[0] == zapcore.ErrorLevel && L.arg1[0] == "" && L.arg2[0] == args && len(L.arg3[0]) == 0
+
+//@ func (*zap.SugaredLogger).Errorf
+//@   props C06 C15 C14
+//@   flags nopanic propagates-panics
+//@   requires s != nil && s.base != nil && s.base.core != nil && s.base.clock != nil && s.base.addStack != nil && s.base.errorOutput != nil
+//@   requires 0 <= s.base.callerSkip && s.base.callerSkip <= 1 << 20
+//@   modifies $user, comp(E:zapcore.Core), comp(E:uint8), comp(E:uintptr), buffer.Buffer.bs, stacktrace.Formatter.nonEmpty, fields(zapcore.Field), fields(zap.invalidPair)
+//@   ensures elems_frame(type(zapcore.Core), zero(type([]zapcore.Core)))
+//@   track L = call (*zap.SugaredLogger).log
+//@   ensures #L == 1 && L.recv[0] == s && L.arg0[0] == zapcore.ErrorLevel && L.arg1[0] == template && L.arg2[0] == args && len(L.arg3[0]) == 0
+
+//@ func (*zap.SugaredLogger).Errorw
+//@   props C06 C15 C14
+//@   flags nopanic propagates-panics
+//@   requires s != nil && s.base != nil && s.base.core != nil && s.base.clock != nil && s.base.addStack != nil && s.base.errorOutput != nil
+//@   requires 0 <= s.base.callerSkip && s.base.callerSkip <= 1 << 20
+//@   modifies $user, comp(E:zapcore.Core), comp(E:uint8), comp(E:uintptr), buffer.Buffer.bs, stacktrace.Formatter.nonEmpty, fields(zapcore.Field), fields(zap.invalidPair)
+//@   ensures elems_frame(type(zapcore.Core), zero(type([]zapcore.Core)))
+//@   track L = call (*zap.SugaredLogger).log
+//@   ensures #L == 1 && L.recv[0] == s && L.arg0[0] == zapcore.ErrorLevel && L.arg1[0] == msg && len(L.arg2[0]) == 0 && L.arg3[0] == keysAndValues
+
+//@ func (*zap.SugaredLogger).Errorln
+//@   props C06 C15 C14
+//@   flags nopanic propagates-panics
+//@   requires s != nil && s.base != nil && s.base.core != nil && s.base.clock != nil && s.base.addStack != nil && s.base.errorOutput != nil
+//@   requires 0 <= s.base.callerSkip && s.base.callerSkip <= 1 << 20
+//@   modifies $user, comp(E:zapcore.Core), comp(E:uint8), comp(E:uintptr), buffer.Buffer.bs, stacktrace.Formatter.nonEmpty, fields(zapcore.Field), fields(zap.invalidPair)
+//@   ensures elems_frame(type(zapcore.Core), zero(type([]zapcore.Core)))
+//@   track L = call (*zap.SugaredLogger).logln
+//@   ensures #L == 1 && L.recv[0] == s && L.arg0[0] == zapcore.ErrorLevel && L.arg1[0] == args && len(L.arg2[0]) == 0
+
+//@ func (*zap.SugaredLogger).DPanic
+//@   props C06 C15 C14
+//@   flags nopanic propagates-panics
+//@   requires s != nil && s.base != nil && s.base.core != nil && s.base.clock != nil && s.base.addStack != nil && s.base.errorOutput != nil
+//@   requires 0 <= s.base.callerSkip && s.base.callerSkip <= 1 << 20
+//@   modifies $user, comp(E:zapcore.Core), comp(E:uint8), comp(E:uintptr), buffer.Buffer.bs, stacktrace.Formatter.nonEmpty, fields(zapcore.Field), fields(zap.invalidPair)
+//@   ensures elems_frame(type(zapcore.Core), zero(type([]zapcore.Core)))
+//@   track L = call (*zap.SugaredLogger).log
+//@   ensures #L == 1 && L.recv[0] == s && L.arg0[0] == zapcore.DPanicLevel && L.arg1[0] == "" && L.arg2[0] == args && len(L.arg3[0]) == 0
+
+//@ func (*zap.SugaredLogger).DPanicf
+//@   props C06 C15 C14
+//@   flags nopanic propagates-panics
+//@   requires s != nil && s.base != nil && s.base.core != nil && s.base.clock != nil && s.base.addStack != nil && s.base.errorOutput != nil
+//@   requires 0 <= s.base.callerSkip && s.base.callerSkip <= 1 << 20
+//@   modifies $user, comp(E:zapcore.Core), comp(E:uint8), comp(E:uintptr), buffer.Buffer.bs, stacktrace.Formatter.nonEmpty, fields(zapcore.Field), fields(zap.invalidPair)
+//@   ensures elems_frame(type(zapcore.Core), zero(type([]zapcore.Core)))
+//@   track L = call (*zap.SugaredLogger).log
+//@   ensures #L == 1 && L.recv[0] == s && L.arg0[0] == zapcore.DPanicLevel && L.arg1[0] == template && L.arg2[0] == args && len(L.arg3[0]) == 0
+
+//@ func (*zap.SugaredLogger).DPanicw
+//@   props C06 C15 C14
+//@   flags nopanic propagates-panics
+//@   requires s != nil && s.base != nil && s.base.core != nil && s.base.clock != nil && s.base.addStack != nil && s.base.errorOutput != nil
+//@   requires 0 <= s.base.callerSkip && s.base.callerSkip <= 1 << 20
+//@   modifies $user, comp(E:zapcore.Core), comp(E:uint8), comp(E:uintptr), buffer.Buffer.bs, stacktrace.Formatter.nonEmpty, fields(zapcore.Field), fields(zap.invalidPair)
+//@   ensures elems_frame(type(zapcore.Core), zero(type([]zapcore.Core)))
+//@   track L = call (*zap.SugaredLogger).log
+//@   ensures #L == 1 && L.recv[0] == s && L.arg0[0] == zapcore.DPanicLevel && L.arg1[0] == msg && len(L.arg2[0]) == 0 && L.arg3[0] == keysAndValues
+
+//@ func (*zap.SugaredLogger).DPanicln
+//@   props C06 C15 C14
+//@   flags nopanic propagates-panics
+//@   requires s != nil && s.base != nil && s.base.core != nil && s.base.clock != nil && s.base.addStack != nil && s.base.errorOutput != nil
+//@   requires 0 <= s.base.callerSkip && s.base.callerSkip <= 1 << 20
+//@   modifies $user, comp(E:zapcore.Core), comp(E:uint8), comp(E:uintptr), buffer.Buffer.bs, stacktrace.Formatter.nonEmpty, fields(zapcore.Field), fields(zap.invalidPair)
+//@   ensures elems_frame(type(zapcore.Core), zero(type([]zapcore.Core)))
+//@   track L = call (*zap.SugaredLogger).logln
+//@   ensures #L == 1 && L.recv[0] == s && L.arg0[0] == zapcore.DPanicLevel && L.arg1[0] == args && len(L.arg2[0]) == 0
+
+//@ func (*zap.SugaredLogger).Panic
+//@   props C06 C15 C14
+//@   flags nopanic propagates-panics
+//@   requires s != nil && s.base != nil && s.base.core != nil && s.base.clock != nil && s.base.addStack != nil && s.base.errorOutput != nil
+//@   requires 0 <= s.base.callerSkip && s.base.callerSkip <= 1 << 20
+//@   modifies $user, comp(E:zapcore.Core), comp(E:uint8), comp(E:uintptr), buffer.Buffer.bs, stacktrace.Formatter.nonEmpty, fields(zapcore.Field), fields(zap.invalidPair)
+//@   ensures elems_frame(type(zapcore.Core), zero(type([]zapcore.Core)))
+//@   track L = call (*zap.SugaredLogger).log
+//@   ensures #L == 1 && L.recv[0] == s && L.arg0[0] == zapcore.PanicLevel && L.arg1[0] == "" && L.arg2[0] == args && len(L.arg3[0]) == 0
+
+//@ func (*zap.SugaredLogger).Panicf
+//@   props C06 C15 C14
+//@   flags nopanic propagates-panics
+//@   requires s != nil && s.base != nil && s.base.core != nil && s.base.clock != nil && s.base.addStack != nil && s.base.errorOutput != nil
+//@   requires 0 <= s.base.callerSkip && s.base.callerSkip <= 1 << 20
+//@   modifies $user, comp(E:zapcore.Core), comp(E:uint8), comp(E:uintptr), buffer.Buffer.bs, stacktrace.Formatter.nonEmpty, fields(zapcore.Field), fields(zap.invalidPair)
+//@   ensures elems_frame(type(zapcore.Core), zero(type([]zapcore.Core)))
+//@   track L = call (*zap.SugaredLogger).log
+//@   ensures #L == 1 && L.recv[0] == s && L.arg0[0] == zapcore.PanicLevel && L.arg1[0] == template && L.arg2[0] == args && len(L.arg3[0]) == 0
+
+//@ func (*zap.SugaredLogger).Panicw
+//@   props C06 C15 C14
+//@   flags nopanic propagates-panics
+//@   requires s != nil && s.base != nil && s.base.core != nil && s.base.clock != nil && s.base.addStack != nil && s.base.errorOutput != nil
+//@   requires 0 <= s.base.callerSkip && s.base.callerSkip <= 1 << 20
+//@   modifies $user, comp(E:zapcore.Core), comp(E:uint8), comp(E:uintptr), buffer.Buffer.bs, stacktrace.Formatter.nonEmpty, fields(zapcore.Field), fields(zap.invalidPair)
+//@   ensures elems_frame(type(zapcore.Core), zero(type([]zapcore.Core)))
+//@   track L = call (*zap.SugaredLogger).log
+//@   ensures #L == 1 && L.recv[0] == s && L.arg0[0] == zapcore.PanicLevel && L.arg1[0] == msg && len(L.arg2[0]) == 0 && L.arg3[0] == keysAndValues
+
+//@ func (*zap.SugaredLogger).Panicln
+//@   props C06 C15 C14
+//@   flags nopanic propagates-panics
+//@   requires s != nil && s.base != nil && s.base.core != nil && s.base.clock != nil && s.base.addStack != nil && s.base.errorOutput != nil
+//@   requires 0 <= s.base.callerSkip && s.base.callerSkip <= 1 << 20
+//@   modifies $user, comp(E:zapcore.Core), comp(E:uint8), comp(E:uintptr), buffer.Buffer.bs, stacktrace.Formatter.nonEmpty, fields(zapcore.Field), fields(zap.invalidPair)
+//@   ensures elems_frame(type(zapcore.Core), zero(type([]zapcore.Core)))
+//@   track L = call (*zap.SugaredLogger).logln
+//@   ensures #L == 1 && L.recv[0] == s && L.arg0[0] == zapcore.PanicLevel && L.arg1[0] == args && len(L.arg2[0]) == 0
+
+//@ func (*zap.SugaredLogger).Fatal
+//@   props C06 C15 C14
+//@   flags nopanic propagates-panics
+//@   requires s != nil && s.base != nil && s.base.core != nil && s.base.clock != nil && s.base.addStack != nil && s.base.errorOutput != nil
+//@   requires 0 <= s.base.callerSkip && s.base.callerSkip <= 1 << 20
+//@   modifies $user, comp(E:zapcore.Core), comp(E:uint8), comp(E:uintptr), buffer.Buffer.bs, stacktrace.Formatter.nonEmpty, fields(zapcore.Field), fields(zap.invalidPair)
+//@   ensures elems_frame(type(zapcore.Core), zero(type([]zapcore.Core)))
+//@   track L = call (*zap.SugaredLogger).log
+//@   ensures #L == 1 && L.recv[0] == s && L.arg0[0] == zapcore.FatalLevel && L.arg1[0] == "" && L.arg2[0] == args && len(L.arg3[0]) == 0
+
+//@ func (*zap.SugaredLogger).Fatalf
+//@   props C06 C15 C14
+//@   flags nopanic propagates-panics
+//@   requires s != nil && s.base != nil && s.base.core != nil && s.base.clock != nil && s.base.addStack != nil && s.base.errorOutput != nil
+//@   requires 0 <= s.base.callerSkip && s.base.callerSkip <= 1 << 20
+//@   modifies $user, comp(E:zapcore.Core), comp(E:uint8), comp(E:uintptr), buffer.Buffer.bs, stacktrace.Formatter.nonEmpty, fields(zapcore.Field), fields(zap.invalidPair)
+//@   ensures elems_frame(type(zapcore.Core), zero(type([]zapcore.Core)))
+//@   track L = call (*zap.SugaredLogger).log
+//@   ensures #L == 1 && L.recv[0] == s && L.arg0[0] == zapcore.FatalLevel && L.arg1[0] == template && L.arg2[0] == args && len(L.arg3[0]) == 0
+
+//@ func (*zap.SugaredLogger).Fatalw
+//@   props C06 C15 C14
+//@   flags nopanic propagates-panics
+//@   requires s != nil && s.base != nil && s.base.core != nil && s.base.clock != nil && s.base.addStack != nil && s.base.errorOutput != nil
+//@   requires 0 <= s.base.callerSkip && s.base.callerSkip <= 1 << 20
+//@   modifies $user, comp(E:zapcore.Core), comp(E:uint8), comp(E:uintptr), buffer.Buffer.bs, stacktrace.Formatter.nonEmpty, fields(zapcore.Field), fields(zap.invalidPair)
+//@   ensures elems_frame(type(zapcore.Core), zero(type([]zapcore.Core)))
+//@   track L = call (*zap.SugaredLogger).log
+//@   ensures #L == 1 && L.recv[0] == s && L.arg0[0] == zapcore.FatalLevel && L.arg1[0] == msg && len(L.arg2[0]) == 0 && L.arg3[0] == keysAndValues
+
+//@ func (*zap.SugaredLogger).Fatalln
+//@   props C06 C15 C14
+//@   flags nopanic propagates-panics
+//@   requires s != nil && s.base != nil && s.base.core != nil && s.base.clock != nil && s.base.addStack != nil && s.base.errorOutput != nil
+//@   requires 0 <= s.base.callerSkip && s.base.callerSkip <= 1 << 20
+//@   modifies $user, comp(E:zapcore.Core), comp(E:uint8), comp(E:uintptr), buffer.Buffer.bs, stacktrace.Formatter.nonEmpty, fields(zapcore.Field), fields(zap.invalidPair)
+//@   ensures elems_frame(type(zapcore.Core), zero(type([]zapcore.Core)))
+//@   track L = call (*zap.SugaredLogger).logln
+//@   ensures #L == 1 && L.recv[0] == s && L.arg0[0] == zapcore.FatalLevel && L.arg1[0] == args && len(L.arg2[0]) == 0
+
+//@ func (*zap.SugaredLogger).Log
+//@   props C06 C15 C14
+//@   flags nopanic propagates-panics
+//@   requires s != nil && s.base != nil && s.base.core != nil && s.base.clock != nil && s.base.addStack != nil && s.base.errorOutput != nil
+//@   requires 0 <= s.base.callerSkip && s.base.callerSkip <= 1 << 20
+//@   modifies $user, comp(E:zapcore.Core), comp(E:uint8), comp(E:uintptr), buffer.Buffer.bs, stacktrace.Formatter.nonEmpty, fields(zapcore.Field), fields(zap.invalidPair)
+//@   ensures elems_frame(type(zapcore.Core), zero(type([]zapcore.Core)))
+//@   track L = call (*zap.SugaredLogger).log
+//@   ensures #L == 1 && L.recv[0] == s && L.arg0[0] == lvl && L.arg1[0] == "" && L.arg2[0] == args && len(L.arg3[0]) == 0
+
+//@ func (*zap.SugaredLogger).Logf
+//@   props C06 C15 C14
+//@   flags nopanic propagates-panics
+//@   requires s != nil && s.base != nil && s.base.core != nil && s.base.clock != nil && s.base.addStack != nil && s.base.errorOutput != nil
+//@   requires 0 <= s.base.callerSkip && s.base.callerSkip <= 1 << 20
+//@   modifies $user, comp(E:zapcore.Core), comp(E:uint8), comp(E:uintptr), buffer.Buffer.bs, stacktrace.Formatter.nonEmpty, fields(zapcore.Field), fields(zap.invalidPair)
+//@   ensures elems_frame(type(zapcore.Core), zero(type([]zapcore.Core)))
+//@   track L = call (*zap.SugaredLogger).log
+//@   ensures #L == 1 && L.recv[0] == s && L.arg0[0] == lvl && L.arg1[0] == template && L.arg2[0] == args && len(L.arg3[0]) == 0
+
+//@ func (*zap.SugaredLogger).Logw
+//@   props C06 C15 C14
+//@   flags nopanic propagates-panics
+//@   requires s != nil && s.base != nil && s.base.core != nil && s.base.clock != nil && s.base.addStack != nil && s.base.errorOutput != nil
+//@   requires 0 <= s.base.callerSkip && s.base.callerSkip <= 1 << 20
+//@   modifies $user, comp(E:zapcore.Core), comp(E:uint8), comp(E:uintptr), buffer.Buffer.bs, stacktrace.Formatter.nonEmpty, fields(zapcore.Field), fields(zap.invalidPair)
+//@   ensures elems_frame(type(zapcore.Core), zero(type([]zapcore.Core)))
+//@   track L = call (*zap.SugaredLogger).log
+//@   ensures #L == 1 && L.recv[0] == s && L.arg0[0] == lvl && L.arg1[0] == msg && len(L.arg2[0]) == 0 && L.arg3[0] == keysAndValues
+
+//@ func (*zap.SugaredLogger).Logln
+//@   props C06 C15 C14
+//@   flags nopanic propagates-panics
+//@   requires s != nil && s.base != nil && s.base.core != nil && s.base.clock != nil && s.base.addStack != nil && s.base.errorOutput != nil
+//@   requires 0 <= s.base.callerSkip && s.base.callerSkip <= 1 << 20
+//@   modifies $user, comp(E:zapcore.Core), comp(E:uint8), comp(E:uintptr), buffer.Buffer.bs, stacktrace.Formatter.nonEmpty, fields(zapcore.Field), fields(zap.invalidPair)
+//@   ensures elems_frame(type(zapcore.Core), zero(type([]zapcore.Core)))
+//@   track L = call (*zap.SugaredLogger).logln
+//@   ensures #L == 1 && L.recv[0] == s && L.arg0[0] == lvl && L.arg1[0] == args && len(L.arg2[0]) == 0
